@@ -18,6 +18,24 @@
                           next reconcile of a pod of each group is expected to write the PodGroup (the
                           inherited label / annotation is part of the derived fields), the foreign fields
                           must survive that write, and afterwards reconciles are silent again.
+     OwnerSet(k, v)     = the user SETS (v = 1), CHANGES (v = 2) or REMOVES (v = 0) one of the owner labels a
+                          derived spec field is computed from: k = "pe" kai.scheduler/preemptibility
+                          (1 = non-preemptible, 2 = preemptible), k = "pr" priorityClassName (1 = build,
+                          2 = inference). After the next completed reconcile the PodGroup must look like a
+                          FRESH grouping of the workload as it is now (expo[g][k][v + 1], written down in
+                          the catalogue), in particular a removed label must leave no trace. (The queue
+                          label is deliberately not among them: spec.queue / the queue label are derived
+                          at creation only and belong to the pod-group-assigner / admin afterwards -
+                          handler.go ignoreFields - so a later edit of the owner's queue label must NOT
+                          reach the PodGroup; it is a foreign field here.)
+     ReconcileRaced(p,f)= Reconcile(p) that has a real difference to write, with a foreign update of field f
+                          of the same PodGroup landing AFTER ApplyToCluster's Get and BEFORE its Update:
+                             Get PodGroup (old); new := ignoreFields(old, metadata); not equal;
+                             ForeignUpdate(g, f);                                   (resourceVersion moves on)
+                             Update(old + new) -> 409 Conflict -> Reconcile returns the error (requeue):
+                          nothing of the reconcile is written (neither the PodGroup nor the pod), the
+                          foreign value stands, the pod is reconciled again later (an ordinary Reconcile
+                          step). The error is expected; what must hold is C18_ForeignPreserved.
 
    The pods are the sibling pods of ONE top owner. `grp[p]` is the documented grouping function of
    the owner kind: pods with the same grp value share a PodGroup (<<1,1,1>> gang kinds, <<1,2,3>>
@@ -29,18 +47,23 @@
               + FOREIGN fields  f = [queue, mark, backoff, nodepool]  (owned by others after creation).
 
    `exp[g]` is that function's value for group g (in the model: symbolic; in trace validation: the
-   catalogue's documented expectation for the real owner chain). The scenario variables grp, exp,
-   expsub never change.
+   catalogue's documented expectation for the real owner chain) for the workload as it is installed;
+   `expo[g]` tabulates the two fields that follow an owner label which can be edited later:
+   expo[g].pe[v + 1] / expo[g].pr[v + 1] = preemptibility / priority class of a fresh grouping when
+   the owner's label is in state v. The scenario variables grp, exp, expo, expsub never change.
 
    Properties (never guards):
      C18_SameGroup        reconciled siblings carry the same group annotation iff grp says so, and
                           the annotation names an existing PodGroup
-     C18_Deterministic    after any reconcile order every existing PodGroup's derived fields = exp,
+     C18_Deterministic    after any reconcile order every existing PodGroup's derived fields = those of a
+                          fresh grouping of the current workload (exp; expo at the owner's current label
+                          state once a pod of the group was reconciled after the owner changed),
                           no PodGroup nobody documents exists, sub-group labels = expsub
      C18_Idempotent       a Reconcile(p) of an already reconciled pod whose group saw no external
                           change (foreign update, owner change) since a completed reconcile performs
                           0 mutating calls
-     C18_ForeignPreserved [][Reconcile => foreign fields of existing PodGroups unchanged]_vars
+     C18_ForeignPreserved [][Reconcile => foreign fields of existing PodGroups unchanged]_vars; for a raced
+                          reconcile: = the value the racing foreign update wrote
 *)
 EXTENDS Integers, Sequences, FiniteSets, TLC
 
@@ -49,22 +72,26 @@ CONSTANTS GroupOf,      \* model: the grouping function as a sequence pod -> gro
           MaxForeign,   \* model: bound on the number of foreign updates in a schedule
           MaxOwner      \* model: bound on the number of owner changes in a schedule
 
-VARIABLES grp, exp, expsub,   \* scenario
+VARIABLES grp, exp, expo, expsub,   \* scenario
           pg,                 \* [group -> [ex : BOOLEAN, d : derived record, f : foreign record]]
           extra,              \* number of PodGroups in the namespace that no group of the scenario documents
           ann, lab,           \* per pod: pod-group-name annotation, sub-group label
           done,               \* per pod: reconciled at least once
           dirty,              \* per group: external change (foreign update, owner change) since the last reconcile that touched the group
-          ov,                 \* [l, a]: how often the owner's label / annotation was changed (0 = key absent)
+          ov,                 \* [l, a]: how often the owner's label / annotation was changed (0 = key absent);
+                              \* [pe, pr]: state of the owner's preemptibility / priority class label (0 = absent, 1, 2)
+          oc,                 \* number of owner changes so far
           odirty,             \* per group: owner change not yet seen by a reconcile of a pod of the group
           fc,                 \* per group, per field: number of foreign updates so far
           steps,
           last                \* label + observed effect of the last action
 
-vars == <<grp, exp, expsub, pg, extra, ann, lab, done, dirty, ov, odirty, fc, steps, last>>
+vars == <<grp, exp, expo, expsub, pg, extra, ann, lab, done, dirty, ov, oc, odirty, fc, steps, last>>
 
 Fields == {"queue", "mark", "backoff", "nodepool", "stamp"}
 OwnerKinds == {"l", "a"}
+OwnerSets == {"pe", "pr"}
+OwnerVals == 0..2
 Pods == 1..Len(grp)
 Groups == {grp[p] : p \in Pods}
 
@@ -82,26 +109,36 @@ FVal(f, k) ==
 \* the value of the inherited owner label / annotation after k changes (the first change ADDS the key)
 OVal(k) == IF k = 0 THEN "" ELSE "v" \o ToString(k)
 
-WantD(g) == [name |-> exp[g].name, min |-> exp[g].min, prio |-> exp[g].prio, preempt |-> exp[g].preempt,
+\* a fresh grouping of the workload as it is now
+WantD(g) == [name |-> exp[g].name, min |-> exp[g].min, prio |-> expo[g].pr[ov.pr + 1], preempt |-> expo[g].pe[ov.pe + 1],
              sub |-> exp[g].sub, owner |-> exp[g].owner, topo |-> exp[g].topo, ol |-> OVal(ov.l), oa |-> OVal(ov.a)]
 \* the part of the derived fields that does not depend on later owner edits
-BaseD(d) == [name |-> d.name, min |-> d.min, prio |-> d.prio, preempt |-> d.preempt, sub |-> d.sub, owner |-> d.owner, topo |-> d.topo]
+BaseD(d) == [name |-> d.name, min |-> d.min, sub |-> d.sub, owner |-> d.owner, topo |-> d.topo]
+\* the part that follows the owner's (editable) labels / annotations
+OwnD(d) == [prio |-> d.prio, preempt |-> d.preempt, ol |-> d.ol, oa |-> d.oa]
 \* foreign fields at creation: queue and node-pool label are derived, the others unset
 InitF(g) == [queue |-> exp[g].queue, mark |-> "nil", backoff |-> "nil", nodepool |-> exp[g].nodepool, stamp |-> ""]
 
-NFor == LET S == {<<g, f>> : g \in Groups, f \in Fields}
+NFor == LET FSum(g) == fc[g]["queue"] + fc[g]["mark"] + fc[g]["backoff"] + fc[g]["nodepool"] + fc[g]["stamp"]
             RECURSIVE Sum(_)
-            Sum(T) == IF T = {} THEN 0 ELSE LET x == CHOOSE x \in T : TRUE IN fc[x[1]][x[2]] + Sum(T \ {x})
-        IN Sum(S)
+            Sum(T) == IF T = {} THEN 0 ELSE LET x == CHOOSE x \in T : TRUE IN FSum(x) + Sum(T \ {x})
+        IN Sum(Groups)
 
 NoLast == [n |-> "Init", p |-> 0, g |-> 0, f |-> "", wpg |-> 0, wpod |-> 0, wother |-> 0, idem |-> FALSE]
 
+\* symbolic expectation table of the model: label state 0 / 1 / 2 -> value of a fresh grouping
+ModelExpO == [pe |-> <<"", "non-preemptible", "preemptible">>, pr |-> <<"train", "build", "inference">>]
+
 (* ---------------------------------------------------------------------------------------------- *)
+\* two installs: plain (no scheduling labels on the owner) and labelled (preemptibility + priority class set)
 Init ==
   /\ grp = GroupOf
-  /\ exp = [g \in {GroupOf[p] : p \in 1..Len(GroupOf)} |->
-              [name |-> "pg-" \o ToString(g), min |-> 1, prio |-> "train", preempt |-> "", sub |-> "", owner |-> "top", topo |-> "",
-               queue |-> "q0", nodepool |-> ""]]
+  /\ \E v0 \in {0, 1} :
+       /\ ov = [l |-> 0, a |-> 0, pe |-> v0, pr |-> v0]
+       /\ exp = [g \in {GroupOf[p] : p \in 1..Len(GroupOf)} |->
+                   [name |-> "pg-" \o ToString(g), min |-> 1, prio |-> ModelExpO.pr[v0 + 1], preempt |-> ModelExpO.pe[v0 + 1], sub |-> "",
+                    owner |-> "top", topo |-> "", queue |-> "q0", nodepool |-> ""]]
+  /\ expo = [g \in {GroupOf[p] : p \in 1..Len(GroupOf)} |-> ModelExpO]
   /\ expsub = [p \in 1..Len(GroupOf) |-> ""]
   /\ pg = [g \in {GroupOf[p] : p \in 1..Len(GroupOf)} |-> NoPG]
   /\ extra = 0
@@ -109,7 +146,7 @@ Init ==
   /\ done = [p \in 1..Len(GroupOf) |-> FALSE]
   /\ dirty = [g \in {GroupOf[p] : p \in 1..Len(GroupOf)} |-> FALSE]
   /\ odirty = [g \in {GroupOf[p] : p \in 1..Len(GroupOf)} |-> FALSE]
-  /\ ov = [l |-> 0, a |-> 0]
+  /\ oc = 0
   /\ fc = [g \in {GroupOf[p] : p \in 1..Len(GroupOf)} |-> [f \in Fields |-> 0]]
   /\ steps = 0
   /\ last = NoLast
@@ -132,39 +169,70 @@ Reconcile(p) ==
      /\ steps' = steps + 1
      /\ last' = [n |-> "Reconcile", p |-> p, g |-> g, f |-> "", wpg |-> wpg, wpod |-> wpod, wother |-> 0,
                  idem |-> done[p] /\ ~dirty[g]]
-     /\ UNCHANGED <<grp, exp, expsub, extra, fc, ov>>
+     /\ UNCHANGED <<grp, exp, expo, expsub, extra, fc, ov, oc>>
+
+\* the reconcile loses the race for the PodGroup's resourceVersion: 409, error, requeue; nothing written
+ReconcileRaced(p, f) ==
+  LET g == grp[p]
+      k == fc[g][f] + 1
+  IN /\ steps < MaxSteps
+     /\ pg[g].ex /\ pg[g].d # WantD(g)          \* found, not equal: ApplyToCluster issues an Update
+     /\ NFor < MaxForeign
+     /\ pg' = [pg EXCEPT ![g].f[f] = FVal(f, k)]
+     /\ fc' = [fc EXCEPT ![g][f] = k]
+     /\ dirty' = [dirty EXCEPT ![g] = TRUE]
+     /\ steps' = steps + 1
+     /\ last' = [n |-> "Raced", p |-> p, g |-> g, f |-> f, wpg |-> 0, wpod |-> 0, wother |-> 0, idem |-> FALSE]
+     /\ UNCHANGED <<grp, exp, expo, expsub, extra, ann, lab, done, ov, oc, odirty>>
 
 ForeignUpdate(g, f) ==
-  /\ steps < MaxSteps /\ NFor < MaxForeign
+  /\ steps < MaxSteps
   /\ pg[g].ex
+  /\ NFor < MaxForeign
   /\ LET k == fc[g][f] + 1
      IN /\ pg' = [pg EXCEPT ![g].f[f] = FVal(f, k)]
         /\ fc' = [fc EXCEPT ![g][f] = k]
   /\ dirty' = [dirty EXCEPT ![g] = TRUE]
   /\ steps' = steps + 1
   /\ last' = [n |-> "Foreign", p |-> 0, g |-> g, f |-> f, wpg |-> 0, wpod |-> 0, wother |-> 0, idem |-> FALSE]
-  /\ UNCHANGED <<grp, exp, expsub, extra, ann, lab, done, ov, odirty>>
+  /\ UNCHANGED <<grp, exp, expo, expsub, extra, ann, lab, done, ov, oc, odirty>>
 
 OwnerChange(k) ==
-  /\ steps < MaxSteps /\ ov.l + ov.a < MaxOwner
+  /\ steps < MaxSteps /\ oc < MaxOwner
   /\ ov' = [ov EXCEPT ![k] = @ + 1]
+  /\ oc' = oc + 1
   /\ dirty' = [g \in Groups |-> TRUE]
   /\ odirty' = [g \in Groups |-> TRUE]
   /\ steps' = steps + 1
   /\ last' = [n |-> "Owner", p |-> 0, g |-> 0, f |-> k, wpg |-> 0, wpod |-> 0, wother |-> 0, idem |-> FALSE]
-  /\ UNCHANGED <<grp, exp, expsub, pg, extra, ann, lab, done, fc>>
+  /\ UNCHANGED <<grp, exp, expo, expsub, pg, extra, ann, lab, done, fc>>
+
+\* set / change / remove the owner label a derived spec field follows (the label's new state travels in `g`)
+OwnerSet(k, v) ==
+  /\ steps < MaxSteps /\ oc < MaxOwner
+  /\ v # ov[k]
+  /\ ov' = [ov EXCEPT ![k] = v]
+  /\ oc' = oc + 1
+  /\ dirty' = [g \in Groups |-> TRUE]
+  /\ odirty' = [g \in Groups |-> TRUE]
+  /\ steps' = steps + 1
+  /\ last' = [n |-> "Owner", p |-> 0, g |-> v, f |-> k, wpg |-> 0, wpod |-> 0, wother |-> 0, idem |-> FALSE]
+  /\ UNCHANGED <<grp, exp, expo, expsub, pg, extra, ann, lab, done, fc>>
 
 Next == \/ \E p \in Pods : Reconcile(p)
+        \/ \E p \in Pods, f \in Fields : ReconcileRaced(p, f)
         \/ \E g \in Groups, f \in Fields : ForeignUpdate(g, f)
         \/ \E k \in OwnerKinds : OwnerChange(k)
+        \/ \E k \in OwnerSets, v \in OwnerVals : OwnerSet(k, v)
 Spec == Init /\ [][Next]_vars
 
 (* ---------------------------------------------------------------------------------------------- *)
 TypeOK ==
   /\ \A g \in Groups : pg[g].ex \in BOOLEAN /\ pg[g].d.min \in Nat
   /\ \A p \in Pods : done[p] \in BOOLEAN
-  /\ steps \in 0..MaxSteps /\ extra \in Nat
-  /\ last.n \in {"Init", "Reconcile", "Foreign", "Owner"}
+  /\ steps \in 0..MaxSteps /\ extra \in Nat /\ oc \in 0..MaxOwner
+  /\ ov.l \in Nat /\ ov.a \in Nat /\ ov.pe \in OwnerVals /\ ov.pr \in OwnerVals
+  /\ last.n \in {"Init", "Reconcile", "Raced", "Foreign", "Owner"}
 
 C18_SameGroup ==
   \A p \in Pods : done[p] =>
@@ -176,8 +244,9 @@ C18_Deterministic ==
   /\ extra = 0
   /\ \A g \in Groups : pg[g].ex =>
         /\ BaseD(pg[g].d) = BaseD(WantD(g))
-        \* inherited owner metadata: current once a pod of the group was reconciled after the owner changed
-        /\ ~odirty[g] => (pg[g].d.ol = OVal(ov.l) /\ pg[g].d.oa = OVal(ov.a))
+        \* what follows the owner's editable metadata (inherited label / annotation, preemptibility, priority
+        \* class): that of a fresh grouping once a pod of the group was reconciled after the owner changed
+        /\ ~odirty[g] => OwnD(pg[g].d) = OwnD(WantD(g))
         /\ fc[g]["queue"] = 0 => pg[g].f.queue = exp[g].queue
         /\ fc[g]["nodepool"] = 0 => pg[g].f.nodepool = exp[g].nodepool
   /\ \A p \in Pods : done[p] => lab[p] = expsub[p]
@@ -185,12 +254,17 @@ C18_Deterministic ==
 C18_Idempotent ==
   (last.n = "Reconcile" /\ last.idem) => last.wpg + last.wpod + last.wother = 0
 
-\* a reconcile (the only action that does not change fc) leaves the foreign fields of every existing PodGroup alone
+\* a reconcile leaves the foreign fields of every existing PodGroup alone; when a foreign update lands in the middle
+\* of it (Raced), what the foreign actor wrote is what stands afterwards
 C18_ForeignPreservedStep ==
-  last'.n = "Reconcile" => \A g \in Groups : pg[g].ex => (pg'[g].ex /\ pg'[g].f = pg[g].f)
+  /\ last'.n = "Reconcile" => \A g \in Groups : pg[g].ex => (pg'[g].ex /\ pg'[g].f = pg[g].f)
+  /\ last'.n = "Raced" => \A g \in Groups : pg[g].ex =>
+        /\ pg'[g].ex
+        /\ pg'[g].f = IF g = last'.g THEN [pg[g].f EXCEPT ![last'.f] = FVal(last'.f, fc'[g][last'.f])] ELSE pg[g].f
 C18_ForeignPreserved == [][C18_ForeignPreservedStep]_vars
 
 (* ---- schedule export: one line per transition of the schedule graph (VIEW hides steps/last) ---- *)
-SchedView == <<pg, ann, lab, done, dirty, fc, ov, odirty>>
-Proj == [pg |-> [g \in Groups |-> [ex |-> pg[g].ex, f |-> pg[g].f, ol |-> pg[g].d.ol, oa |-> pg[g].d.oa]], done |-> done, dirty |-> dirty, ov |-> ov, od |-> odirty]
+SchedView == <<pg, ann, lab, done, dirty, fc, ov, oc, odirty>>
+Proj == [pg |-> [g \in Groups |-> [ex |-> pg[g].ex, f |-> pg[g].f, ol |-> pg[g].d.ol, oa |-> pg[g].d.oa, pe |-> pg[g].d.preempt, pr |-> pg[g].d.prio]],
+         done |-> done, dirty |-> dirty, ov |-> ov, oc |-> oc, od |-> odirty, fc |-> fc]
 =============================================================================
